@@ -340,7 +340,7 @@ fn f64_field(lim: i128) -> BoxedStrategy<f64> {
     .boxed()
 }
 
-fn new_case() -> BoxedStrategy<NewCase> {
+pub fn new_case() -> BoxedStrategy<NewCase> {
     let lims: [i128; 10] = [TWO32, TWO32, TWO32, MAX_TIME_NS / UNIT_NS[3], MAX_TIME_NS / UNIT_NS[4], MAX_TIME_NS / UNIT_NS[5], MAX_TIME_NS / UNIT_NS[6], MAX_TIME_NS / UNIT_NS[7], MAX_TIME_NS / UNIT_NS[8], MAX_TIME_NS];
     let fields: Vec<BoxedStrategy<f64>> = lims.iter().map(|l| f64_field(*l)).collect();
     // limit-distributed totals: seconds near 2^53 split over several fields
